@@ -195,4 +195,41 @@ def stationMaskRun (arg : MaskArg) (ops : List MaskOp) : Option (MaskStore × Ma
   | .raises => none
   | .stored s => let t := maskRun s ops; some (s, t.1, t.2)
 
+/-! ## station names: creation, re-creation, use
+
+Everything the frame machinery keeps about a station — the hook `<name>_to_<parent>` on `Orientation` and on `Center`, the graph links,
+`frames.dynamic[name]` — is keyed by the NAME, and `create_station` installs all of it anew at each call ("A frame with the name … is
+already registered. Overriding").  So a name stands for the coordinates of its LAST creation. -/
+
+/-- name ↦ (latitude deg, longitude deg, altitude m) of the creations so far, most recent first -/
+abbrev Registry := List (String × (R × R × R))
+
+inductive RegOp where
+  /-- `create_station(name, (latd, lond, alt))` -/
+  | create (name : String) (latd lond alt : R)
+  /-- `StateVector(st, date, "cartesian", parent).copy(frame=name)` -/
+  | use (name : String) (st : List R)
+
+def regLookup (reg : Registry) (name : String) : Option (R × R × R) :=
+  (reg.find? (fun e => e.1 == name)).map (fun e => e.2)
+
+/-- cartesian then spherical coordinates, in the frame of the station created from `c`, of the parent-frame state `st` -/
+def stationView (c : R × R × R) (st : List R) : List R :=
+  let cart := toStation (stationRadians c.1) (stationRadians c.2.1) c.2.2 st
+  cart ++ toSpherical cart
+
+def regStep (reg : Registry) : RegOp → Registry × Option (Option (List R))
+  | .create n a b c => ((n, (a, b, c)) :: reg, none)
+  | .use n st => (reg, some ((regLookup reg n).map (fun c => stationView c st)))
+
+/-- the registry after a history, and the replies of its `use` operations in order (`none`: unknown frame) -/
+def regRun (reg : Registry) : List RegOp → Registry × List (Option (List R))
+  | [] => (reg, [])
+  | op :: rest =>
+    let r := regStep reg op
+    let t := regRun r.1 rest
+    (t.1, match r.2 with
+          | some rep => rep :: t.2
+          | none => t.2)
+
 end BeyondVerif.R
